@@ -1393,6 +1393,11 @@ class VerifiedThroughFactor(VerificationStrategy[Av, Word]):
         dep = self._dependency(comb_class)
         return None if dep is None else (dep,)
 
+    def shifts(self, comb_class: Av, children: Optional[Tuple[Av, ...]] = None) -> Tuple[int, ...]:
+        # the honest shift of the dependency: a word of size n of the class is `front` + a word of size n - |front| of the child
+        dep = self._dependency(comb_class)
+        return () if dep is None else (len(comb_class.prefix) - len(dep.prefix),)
+
     def get_terms(self, comb_class: Av, n: int) -> Counter:
         if not self.verified(comb_class):
             raise StrategyDoesNotApply("The combinatorial class is not verified")
